@@ -148,7 +148,11 @@ type E2E struct {
 	// while its pipelined calls are still queued or executing on the server;
 	// only what the server does with the requests it has received is judged
 	Teardown bool
-	virtual  bool
+	// Hold (profile "order", real time only): nothing is closed; the first
+	// request of the first connection is held at a gate while a call on a new
+	// connection must complete (connections stay independent while alive)
+	Hold    bool
+	virtual bool
 }
 
 func (p E2E) String() string {
@@ -195,6 +199,12 @@ func genOp(rng *rand.Rand, p E2E, conn, caller int, counter uint64) *Op {
 		DelayUs: uint32(rng.Intn(5000)), Fill: pickFill(rng, big), ReplyLen: uint32(pickFill(rng, big))}
 	if rng.Intn(4) == 0 {
 		o.Spec.DelayUs = 0
+	}
+	if p.Run%3 == 0 {
+		// handler delays from a tiny set: many handlers of one connection
+		// finish at the same (virtual) instant and write their responses
+		// truly in parallel
+		o.Spec.DelayUs = []uint32{0, 500, 1000}[rng.Intn(3)]
 	}
 	// frames just below and above the configured buffer sizes (between a
 	// size that is not a pool size class and the capacity of its class)
@@ -591,7 +601,7 @@ func RunE2EOn(env Env, p E2E, start func(cfg rig.Config, seed int64) (*rig.Rig, 
 			allStreams = append(allStreams, sp)
 		}
 	}
-	if p.Teardown && len(conns) > 0 && len(conns[0].ops) > 0 && len(conns[0].ops[0]) > 0 {
+	if (p.Teardown || p.Hold) && len(conns) > 0 && len(conns[0].ops) > 0 && len(conns[0].ops[0]) > 0 {
 		// the first request of the first connection runs for 300 ms: it is
 		// still executing, with the rest queued behind it, long after its
 		// connection has gone
@@ -672,42 +682,20 @@ func RunE2EOn(env Env, p E2E, start func(cfg rig.Config, seed int64) (*rig.Rig, 
 		}
 		return true
 	}
+	if p.Hold && tdGate != nil {
+		// wait for the gated handler to be entered, then probe
+		env.Settle(func() bool { u, _ := r.Ledger.Running(); return u > 0 }, 5*time.Second)
+		if u, _ := r.Ledger.Running(); u > 0 {
+			probeNewConn(out, p, r, &tdGate, "a request of another, live connection was still executing")
+		} else {
+			close(tdGate)
+			tdGate = nil
+		}
+	}
 	finished := env.Settle(allDone, 30*time.Minute)
 	atomic.StoreInt32(&gcStop, 1)
 	if finished && p.Teardown && tdGate != nil {
-		// Real time: the long handler is held by the gate. A call on a new
-		// connection must complete while the gate is shut. If it has not after
-		// five seconds, the gate is opened: completing only then shows that it
-		// was waiting for the other connection's handler.
-		resc := make(chan error, 1)
-		go func() {
-			nc, err := r.DialOnce()
-			if err != nil {
-				resc <- err
-				return
-			}
-			rec := rig.Do(nc, rig.FormCall, p.Cfg.Codec, rig.Method(p.Cfg.Codec, 0), svc.Spec{Run: p.Run, Conn: 900, Caller: 99, Counter: 2, ReplyLen: 10}, 0, nil)
-			nc.Close()
-			resc <- rec.Err
-		}()
-		select {
-		case err := <-resc:
-			if err != nil {
-				out.stat("teardown_new_connection_errors", 1)
-			}
-			out.stat("teardown_new_connection_calls", 1)
-			close(tdGate)
-		case <-time.After(5 * time.Second):
-			close(tdGate)
-			select {
-			case err := <-resc:
-				out.add("C05", "C05/e2e/teardown-new-connection", fmt.Sprintf("a call on a connection opened while a request of an already closed connection was still executing did not complete for 5 s, and completed (err %v) as soon as that request's handler was released: connections are not independent (%s)", err, p.Cfg), nil)
-				out.add("C08", "C08/e2e/disconnect-blocks-new-connections", fmt.Sprintf("after a client disconnected with a request still executing, a call on a newly accepted connection was not served for 5 s and completed (err %v) as soon as that request's handler was released: well-formed traffic on other connections is not served (%s)", err, p.Cfg), nil)
-			case <-time.After(10 * time.Second):
-				out.Inconclusive = "a call on a fresh connection did not complete within 15 s (" + p.Cfg.String() + " teardown)"
-			}
-		}
-		tdGate = nil
+		probeNewConn(out, p, r, &tdGate, "a request of an already closed connection was still executing")
 	}
 	if finished && p.Teardown && env.Virtual() {
 		// "different connections stay independent": a connection opened now,
@@ -881,6 +869,43 @@ func RunE2EOn(env Env, p E2E, start func(cfg rig.Config, seed int64) (*rig.Rig, 
 	}
 	judgeE2E(out, p, r, conns, all, allStreams)
 	return out
+}
+
+// probeNewConn (real time): a handler is held by the scenario's gate. A call
+// on a new connection must complete while the gate is shut. If it has not
+// after five seconds, the gate is opened: completing only then shows that it
+// was waiting for the other connection's handler - a causal verdict, not a
+// timed one.
+func probeNewConn(out *Outcome, p E2E, r *rig.Rig, gate *chan struct{}, when string) {
+	resc := make(chan error, 1)
+	go func() {
+		nc, err := r.DialOnce()
+		if err != nil {
+			resc <- err
+			return
+		}
+		rec := rig.Do(nc, rig.FormCall, p.Cfg.Codec, rig.Method(p.Cfg.Codec, 0), svc.Spec{Run: p.Run, Conn: 900, Caller: 99, Counter: 2, ReplyLen: 10}, 0, nil)
+		nc.Close()
+		resc <- rec.Err
+	}()
+	select {
+	case err := <-resc:
+		if err != nil {
+			out.stat("new_connection_probe_errors", 1)
+		}
+		out.stat("teardown_new_connection_calls", 1)
+		close(*gate)
+	case <-time.After(5 * time.Second):
+		close(*gate)
+		select {
+		case err := <-resc:
+			out.add("C05", "C05/e2e/new-connection-not-independent", fmt.Sprintf("a call on a connection opened while %s did not complete for 5 s, and completed (err %v) as soon as that request's handler was released: connections are not independent (%s)", when, err, p.Cfg), nil)
+			out.add("C08", "C08/e2e/other-connections-not-served", fmt.Sprintf("while %s, a call on a newly accepted connection was not served for 5 s and completed (err %v) as soon as that request's handler was released: well-formed traffic on other connections is not served (%s)", when, err, p.Cfg), nil)
+		case <-time.After(10 * time.Second):
+			out.Inconclusive = "a call on a fresh connection did not complete within 15 s (" + p.Cfg.String() + ")"
+		}
+	}
+	*gate = nil
 }
 
 // judgeTeardown judges a scenario whose connections were closed by the client
@@ -1214,7 +1239,7 @@ func judgeE2E(out *Outcome, p E2E, r *rig.Rig, conns []*e2eConn, all []*Op, stre
 			}
 			continue
 		}
-		if !sent[e.ID] && e.Spec.Run != 0xfffffff { // 0xfffffff: the harness's own warm-up call
+		if !sent[e.ID] && e.Spec.Run != 0xfffffff && !(e.Spec.Conn == 900 && e.Spec.Caller == 99) { // the harness's own warm-up and new-connection probe calls
 			out.add("C04", "C04/e2e/unsent-exec", fmt.Sprintf("handler %s ran for id %s which no caller of this scenario sent (%s)", e.Method, e.ID, cfgs), nil)
 		}
 	}
